@@ -362,7 +362,7 @@ def cacg(d, ctx):
     for idx in np.ndindex(*lead):
         V[idx] = gen.haar_unitary(rng, D)
         lam[idx] = rng.permutation(gen.spectrum(rng, D, cond)) * \
-            (1.0 if how == 'from_covariance' else 10 ** rng.uniform(-2, 2))
+            (1.0 if how == 'from_covariance' else 10 ** rng.uniform(-30, 30))
     B = np.einsum('...wx,...x,...zx->...wz', V, lam, V.conj())
     z = gen.cnormal(rng, (*lead, N, D))
     for idx in np.ndindex(*lead):
